@@ -44,6 +44,11 @@ func (d *driver) buildOverlay(hdir, set string) (*overlayInfo, error) {
 	if err := addDir(filepath.Join(d.verif, "harness", "model"), filepath.Join(repoDir, "zzverif", "model")); err != nil {
 		return nil, err
 	}
+	for _, m := range d.cfg.Models {
+		if err := addDir(filepath.Join(d.verif, "harness", m), filepath.Join(repoDir, "zzverif", m)); err != nil {
+			return nil, err
+		}
+	}
 	if _, err := os.Stat(filepath.Join(d.verif, "harness", "hlib")); err == nil {
 		if err := addDir(filepath.Join(d.verif, "harness", "hlib"), filepath.Join(repoDir, "zzverif", "hlib")); err != nil {
 			return nil, err
@@ -191,6 +196,9 @@ func (d *driver) load(hdir, set string) (*interp.Program, *overlayInfo, error) {
 		return nil, nil, err
 	}
 	patterns := []string{modPath + "/zzverif/rt", modPath + "/zzverif/model"}
+	for _, m := range d.cfg.Models {
+		patterns = append(patterns, modPath+"/zzverif/"+m)
+	}
 	if d.cfg.InPackage != "" {
 		patterns = append(patterns, modPath+"/"+d.cfg.InPackage)
 	} else {
